@@ -104,12 +104,12 @@ def _finish_spec(rng, st, loaders):
 def gen_cases(run):
     rng = run.rng
     flags = _flags(run)
-    n_probe = run.n(60, 16 * 400)
-    n_stack = run.n(170, 16 * 1500)
-    n_common = run.n(10, 16 * 40)
+    n_probe = run.n(50, 16 * 300)
+    n_stack = run.n(125, 16 * 1000)
+    n_common = run.n(8, 16 * 30)
     plan = ["probe"] * n_probe + ["stack"] * n_stack + ["common"] * n_common
     rng.shuffle(plan)
-    loader_share = 0.45
+    loader_share = 0.3
     for kind in plan:
         if kind == "probe":
             st = S.gen_probe(rng)
@@ -117,7 +117,7 @@ def gen_cases(run):
             st = S.gen_stack(rng, flags, family="common")
         else:
             st = S.gen_stack(rng, flags, family=rng.choice(["xtw", "xtw", "xtw", "xtw2", "mv", "mv", "mix", "semseg", "semseg"]))
-        loaders = rng.choice([1, 2, 2, 3]) if rng.random() < loader_share else 0
+        loaders = rng.choice([1, 2, 2]) if rng.random() < loader_share else 0
         yield _finish_spec(rng, st, loaders)
 
 
